@@ -28,6 +28,10 @@ def load_module(name, source):
     return m
 
 
+def strip_side(brief):
+    return [x for x in brief if not (isinstance(x, list) and x and x[0] == "side")]
+
+
 def norm(brief):
     """Outcome image compared across a restart: value text, or the failure classes.  WHICH of several missing
     keys a failure names depends on set iteration order, i.e. on the interpreter's hash seed (DESIGN 2.10 item 2)."""
@@ -129,8 +133,13 @@ class C20(HistoryProperty):
     NONTRIVIAL_MEASURE = "history_compared_after_restart"
 
     def gen_case(self, rng, tier):
-        cfg = gen.swarm_cfg(rng, off=("shape_change",))  # (no dataset classes: classes pickle by reference, a round trip carries none of their state)
+        # dataset classes pickle by REFERENCE: a round trip carries none of their state (and in one process the copy IS the
+        # original), so for graphs that contain one only values / failures / keys are compared, not which effects ran
+        cfg = gen.swarm_cfg(rng, off=("shape_change",), on=("dsclass",))
         spec = gen.prune(gen.gen_spec(rng, cfg))
+        for n in spec["nodes"]:
+            if n["k"] == "dsclass" and rng.random() < 0.5:
+                n["nested"] = True
         form = "decorator" if rng.random() < 0.12 else "explicit"
         ops = gen_history(rng, cfg, spec, n_ops=rng.randint(3, 12), ops_kinds=("evaluate", "evaluate", "evaluate", "keys", "validate"))
         r = rng.randrange(0, len(ops))
@@ -207,6 +216,7 @@ class C20(HistoryProperty):
         name = f"labsim_c20_{h64((source, case['ops'])):x}"
         with global_state_guard():
             try:
+                by_reference = any(n["k"] == "dsclass" for n in case["spec"]["nodes"])  # (see gen_case)
                 mod = load_module(name, source)
                 ref = world_over(mod.NODES)
                 copy_w = None
@@ -251,6 +261,11 @@ class C20(HistoryProperty):
                         got = copy_w.do(op)
                         cside = sorted((k[0], k[1], c) for k, c in copy_w.diff_counts(cb, copy_w.counts).items() if k[0] in ("effect", "callback"))
                         compared += 1
+                        if by_reference:
+                            # (objects reached THROUGH a class pickled by reference are the importing process' own, no longer
+                            #  the same objects as the roots pickled by value next to them: only dumps / loads are judged)
+                            res.bump("ops_not_compared_class_pickled_by_reference")
+                            continue
                         if cside != rside:
                             # same values but other side behaviour: effects that the original runs / suppresses
                             res.violate("behaviour-differs-after-round-trip", op_index=i, node=op["node"], o=op["o"], op_kind=op["op"], what="effects / callbacks run",
@@ -272,7 +287,7 @@ class C20(HistoryProperty):
                     else:
                         compared += len(want)
                         for j, (a, b) in enumerate(zip(want, got["outs"])):
-                            if norm(a) != norm(b):
+                            if not by_reference and norm(a) != norm(b):
                                 op = pending_fresh["ops"][j]
                                 res.violate("behaviour-differs-after-round-trip", where="fresh interpreter", op_index=pending_fresh["at"] + 1 + j, node=op.get("node"),
                                             o=op.get("o"), original=a, reloaded=b, hashseed=pending_fresh["hashseed"])
